@@ -15,18 +15,34 @@ pub struct Graph {
     pub n: usize,
     /// edges[i] = list of (target index, spelling variant); target >= n means a missing file
     pub edges: Vec<Vec<(usize, u8)>>,
+    /// 0: all modules in one directory; 1: two directories whose files share base names (`m0.oal`, `d/m0.oal`,
+    /// `m1.oal`, `d/m1.oal`, ...), so that one relative spelling designates different files from different places
+    pub layout: u8,
 }
 
 impl Graph {
-    fn file(i: usize) -> String {
-        format!("m{i}.oal")
+    fn in_d(&self, i: usize) -> bool {
+        self.layout == 1 && i % 2 == 1
     }
-    fn spelled(j: usize, variant: u8) -> String {
+    fn file(&self, i: usize) -> String {
+        if self.layout == 1 {
+            format!("{}m{}.oal", if i % 2 == 1 { "d/" } else { "" }, i / 2)
+        } else {
+            format!("m{i}.oal")
+        }
+    }
+    fn spelled(&self, from: usize, j: usize, variant: u8) -> String {
+        let base = self.file(j).rsplit('/').next().unwrap().to_owned();
+        let rel = match (self.in_d(from), self.in_d(j)) {
+            (false, true) => format!("d/{base}"),
+            (true, false) => format!("../{base}"),
+            _ => base,
+        };
         match variant {
-            0 => Self::file(j),
-            1 => format!("./{}", Self::file(j)),
-            2 => format!("d/../{}", Self::file(j)),
-            _ => format!("file:///ws/{}", Self::file(j)),
+            0 => rel,
+            1 => format!("./{rel}"),
+            2 => format!("x/../{rel}"),
+            _ => format!("file:///ws/{}", self.file(j)),
         }
     }
     pub fn sources(&self) -> Sources {
@@ -42,7 +58,7 @@ impl Graph {
             // `use` statements may stand anywhere at top level: some (by spelling variant) come after the declarations
             let mut late = String::new();
             for (k, (j, v)) in self.edges[i].iter().enumerate() {
-                let line = format!("use \"{}\" as {};\n", Self::spelled(*j, *v), names[k]);
+                let line = format!("use \"{}\" as {};\n", self.spelled(i, *j, *v), names[k]);
                 if (*v as usize + k + i) % 3 == 2 {
                     late.push_str(&line);
                 } else {
@@ -62,7 +78,7 @@ impl Graph {
             if i == 0 {
                 t.push_str("res / on get -> v;\n");
             }
-            files.push((Self::file(i), t));
+            files.push((self.file(i), t));
         }
         Sources { files }
     }
@@ -134,11 +150,12 @@ impl Graph {
         }
     }
     pub fn to_json(&self) -> Value {
-        json!({"n": self.n, "edges": self.edges})
+        json!({"n": self.n, "edges": self.edges, "layout": self.layout})
     }
     pub fn from_json(v: &Value) -> Graph {
         Graph {
             n: v["n"].as_u64().unwrap_or(1) as usize,
+            layout: v["layout"].as_u64().unwrap_or(0) as u8,
             edges: v["edges"]
                 .as_array()
                 .map(|a| {
@@ -183,7 +200,7 @@ impl Loads {
                         }
                     }
                 }
-                return (Graph { n, edges }, "exhaustive");
+                return (Graph { n, edges, layout: 0 }, "exhaustive");
             }
             i -= block;
         }
@@ -206,7 +223,8 @@ impl Loads {
                 edges[a].push((n + rng.below(2), rng.below(3) as u8));
             }
         }
-        (Graph { n, edges }, "random")
+        let layout = rng.below(2) as u8;
+        (Graph { n, edges, layout }, "random")
     }
 }
 
@@ -296,7 +314,7 @@ fn check_log(g: &Graph, r: &RunResult) -> Vec<String> {
         p.push(format!("panic: {pn}"));
         return p;
     }
-    let url = |i: usize| Sources::locator(&Graph::file(i)).url().to_string();
+    let url = |i: usize| Sources::locator(&g.file(i)).url().to_string();
     let reach = g.reachable();
     let count = |op: &str, u: &str| r.log.iter().filter(|e| e.op == op && e.loc == u).count();
     let pos = |op: &str, u: &str| r.log.iter().position(|e| e.op == op && e.loc == u);
@@ -464,8 +482,9 @@ pub fn run(ctx: &Ctx) -> i32 {
     let g = Graph {
         n: 2,
         edges: vec![vec![(1, 0)], vec![]],
+        layout: 0,
     };
-    let u = |i: usize| Sources::locator(&Graph::file(i)).url().to_string();
+    let u = |i: usize| Sources::locator(&g.file(i)).url().to_string();
     let bad = RunResult {
         log: vec![
             Event { op: "load", loc: u(0) },
